@@ -3,277 +3,353 @@ C06 -- serialize/deserialize round-trip and produce the Specification's wire enc
 
 Round-trip equality over all values, IEEE-754 bit patterns and LSB-first bit arithmetic are numerical and NOT decided.
 Decided is the structural agreement of the independently written layout walkers (a necessary condition for the round trip
-and for "produced length is an element of bit_length_set"):
+and for "produced length is an element of bit_length_set").  The codec functions are *abstractly evaluated* (sa/codec.py):
+the writer and reader are event recorders, nested types are opaque symbols, values read from the wire are abstract integers
+whose tests are explored both ways.  Helper extraction, renamed locals, early returns, loops vs comprehensions do not change
+the recorded events.
 
-R1  writer <-> reader symmetry: the traces (E8) of the composite / array / primitive branches are identical event for event.
-R2  writer <-> layout model: the writer traces equal the Specification's layout (per-field alignment + field, final
-    alignment; tag + variant + alignment; prefix + elements with the capacity guards; header + inner bytes).
-R3  type dispatch is exhaustive and unshadowed in the seven dispatchers.
-R4  cast-mode action shape: saturated = clamp to the inclusive range, truncated = mask to the width.
+R1  writer <-> reader symmetry: for every abstract schema the reader's events equal the writer's, event for event.
+R2  writer <-> layout model: the writer's events equal the Specification's layout (per-field alignment + field, final
+    alignment; tag + variant + alignment; prefix + elements under the capacity guards; header + inner bytes); the prefix
+    holds the element count, the tag the variant's index; float widths.
+R3  type dispatch: every concrete type of the model is routed to the codec function of its kind and reaches a handler there.
+R4  cast modes (integers, on a boundary grid): saturated = clamp to the inclusive range, truncated = wrap to the width; what
+    is written is the two's complement within the width; the reader sign-extends at 2**(n-1).
 R5  defaults table and the use of defaults for omitted structure fields.
 """
 from __future__ import annotations
 
 import ast
-import re
 import struct as _struct
 from typing import Any, Dict, List, Optional, Sequence, Set, Tuple
 
-from ..core import AnalysisError, ClassInfo, Ctx, FuncInfo, body_without_docstring, calls_in, dotted, norm, walk_no_nested
-from ..decide import paths_of
-from ..fold import Folder, Unfoldable
-from ..trace import Tracer, isinstance_branches, show_all
+from .. import codec as C
+from ..core import AnalysisError, ClassInfo, Ctx, FuncInfo, norm
+from ..fold import Sym
+from . import codec_common as K
 
 SD = "_serdes"
+SAT, TRUNC = "CastMode.SATURATED", "CastMode.TRUNCATED"
 
 
-def branch_traces(ctx: Ctx, fname: str, subject: str = "schema") -> Dict[str, List[Any]]:
-    fn = ctx.func(SD + "." + fname)
-    out: Dict[str, List[Any]] = {}
-    # statements before the isinstance chain and after it belong to every branch (shared prologue / epilogue)
-    chain = isinstance_branches(fn.node, subject)
-    if not chain:
-        raise AnalysisError("%s: no isinstance(%s, ...) dispatch found" % (fname, subject))
-    body = body_without_docstring(fn.node)
-    chain_stmt = next(st for st in body if isinstance(st, ast.If) and norm(st.test).startswith("isinstance(%s, " % subject))
-    idx = body.index(chain_stmt)
-    epilogue = body[idx + 1 :]
-    for ks, stmts in chain:
-        t = Tracer()
-        ev = t.events(list(stmts) + list(epilogue))
-        for k in ks or ["<else>"]:
-            out[k] = ev
-    return out
-
-
-def _norm_field(s: str) -> str:
-    """`f.data_type`, `field.data_type`, `schema.fields[tag].data_type` -> FIELD.data_type"""
-    s = re.sub(r"schema\.fields\[\w+\]\.data_type", "FIELD.data_type", s)
-    s = re.sub(r"\b(f|field)\.data_type", "FIELD.data_type", s)
-    s = re.sub(r"FOR (f|field) in schema\.fields", "FOR FIELD in schema.fields", s)
-    s = s.replace("isinstance(field, PaddingField)", "isinstance(FIELD, PaddingField)").replace("isinstance(f, PaddingField)", "isinstance(FIELD, PaddingField)")
-    return s
+def _w(events: Sequence[Any], io: str, values: bool = False) -> List[Any]:
+    return C.of_io(C.normalize(events, values), io)
 
 
 def rule_r1_r2(ctx: Ctx) -> None:
-    ctx.rule("C06.R1", "writer and reader walk the same layout: identical traces for structure, union, array and primitive branches", min_instances=8)
-    sw, dr = branch_traces(ctx, "_serialize_composite"), branch_traces(ctx, "_deserialize_composite")
-    for k in ("StructureType", "UnionType"):
-        a, b = _norm_field(show_all(sw.get(k, []))), _norm_field(show_all(dr.get(k, [])))
-        ctx.check(a == b and bool(a), "_serdes._(de)serialize_composite[%s]" % k, a, "the reader must consume exactly what the writer produces, step for step", "pydsdl/_serdes.py", {"reader": b})
-    pw, pr = branch_traces(ctx, "_serialize_primitive"), branch_traces(ctx, "_deserialize_primitive")
-    for k in ("BooleanType", "SignedIntegerType", "UnsignedIntegerType", "VoidType"):
-        a, b = show_all(pw.get(k, [])), show_all(pr.get(k, []))
-        ctx.check(a == b and bool(a), "_serdes._(de)serialize_primitive[%s]" % k, a, "same width written and read", "pydsdl/_serdes.py", {"reader": b})
-    aw, ar = branch_traces(ctx, "_serialize_array"), branch_traces(ctx, "_deserialize_array")
-    # the reader shares its element loop after the dispatch: its trace per branch = branch + shared loop
-    rd = ctx.func(SD + "._deserialize_array")
-    loops = [st for st in body_without_docstring(rd.node) if isinstance(st, ast.For)]
-    shared = Tracer().events(loops)
-    for k in ("FixedLengthArrayType", "VariableLengthArrayType"):
-        a = re.sub(r"FOR \w+ in \w+", "FOR _ in ELEMENTS", show_all(aw.get(k, [])))
-        b_ev = [e for e in ar.get(k, []) if not (isinstance(e, tuple) and e[0] == "FOR")] + shared
-        b = re.sub(r"FOR \w+ in range\(length\)", "FOR _ in ELEMENTS", show_all(b_ev))
-        ctx.check(a == b and bool(a), "_serdes._(de)serialize_array[%s]" % k, a, "prefix and elements are read as they are written", "pydsdl/_serdes.py", {"reader": b})
-
-    ctx.rule("C06.R2", "the writer's trace equals the Specification's layout: structure = per-field (align to the field, field) then align to the structure; union = tag, variant, align; arrays = [prefix] + elements under the capacity guards; delimited = header(byte length of the inner output) + inner bytes", min_instances=6)
-    want_struct = "FOR FIELD in schema.fields [ALIGN(FIELD.data_type.alignment_requirement), IF isinstance(FIELD, PaddingField) [BITS(FIELD.data_type.bit_length)] [EMIT(FIELD.data_type)]]; ALIGN(schema.alignment_requirement)"
-    alt_struct = "FOR FIELD in schema.fields [ALIGN(FIELD.data_type.alignment_requirement), EMIT(FIELD.data_type)]; ALIGN(schema.alignment_requirement)"
-    got = _norm_field(show_all(sw.get("StructureType", [])))
-    ctx.check(got in (want_struct, alt_struct), "_serdes._serialize_composite[StructureType]", got, "each field is preceded by padding to its own alignment; the structure is padded to its alignment at the end", "pydsdl/_serdes.py", {"expected": want_struct})
-    want_union = "BITS(schema.tag_field_type.bit_length); EMIT(FIELD.data_type); ALIGN(schema.alignment_requirement)"
-    got = _norm_field(show_all(sw.get("UnionType", [])))
-    ctx.check(got == want_union, "_serdes._serialize_composite[UnionType]", got, "a union is its tag, the selected variant, then padding to the union's alignment", "pydsdl/_serdes.py", {"expected": want_union})
-    got = re.sub(r"FOR \w+ in \w+", "FOR _ in ELEMENTS", show_all(aw.get("VariableLengthArrayType", [])))
-    ctx.check(got == "BITS(schema.length_field_type.bit_length); FOR _ in ELEMENTS [EMIT(schema.element_type)]", "_serdes._serialize_array[VariableLengthArrayType]", got, "a variable-length array is its length prefix followed by the elements", "pydsdl/_serdes.py")
-    got = re.sub(r"FOR \w+ in \w+", "FOR _ in ELEMENTS", show_all(aw.get("FixedLengthArrayType", [])))
-    ctx.check(got == "FOR _ in ELEMENTS [EMIT(schema.element_type)]", "_serdes._serialize_array[FixedLengthArrayType]", got, "a fixed-length array is its elements, without a prefix", "pydsdl/_serdes.py")
-    # guards of the array writer
-    sa = ctx.func(SD + "._serialize_array")
-    guards = {}
-    for ks, body in isinstance_branches(sa.node, "schema"):
-        for st in body:
-            if isinstance(st, ast.If) and st.body and isinstance(st.body[-1], ast.Raise):
-                for k in ks:
-                    guards[k] = norm(st.test)
-    ctx.check(guards.get("FixedLengthArrayType") in ("len(value) != schema.capacity",) and guards.get("VariableLengthArrayType") in ("not 0 <= len(value) <= schema.capacity", "len(value) > schema.capacity"), sa.short, "guards: %s" % guards, "a fixed array must have exactly `capacity` elements, a variable one at most `capacity`; the prefix value is the element count", sa.where())
-    pref = [c for c in calls_in(sa.node) if isinstance(c.func, ast.Attribute) and c.func.attr == "write_bits" and "length_field_type" in norm(c)]
-    ctx.check(len(pref) == 1 and norm(pref[0].args[0]) == "len(value)", sa.short, norm(pref[0]) if pref else "?", "the length prefix holds the number of elements", sa.where(), nontrivial=False)
-    # union tag value = index of the selected variant
-    sc = ctx.func(SD + "._serialize_composite")
-    tagw = [c for c in calls_in(sc.node) if isinstance(c.func, ast.Attribute) and c.func.attr == "write_bits" and "tag_field_type" in norm(c)]
-    enum_ok = any(isinstance(st, ast.For) and norm(st.iter) == "enumerate(schema.fields)" for st in ast.walk(sc.node))
-    ctx.check(len(tagw) == 1 and norm(tagw[0].args[0]) == "tag_index" and enum_ok, sc.short, norm(tagw[0]) if tagw else "?", "the tag is the index of the selected variant in declaration order", sc.where())
-    # delimited: header value is the byte length of the serialized inner object, followed by those bytes - both copies
-    for fname in ("_serialize_composite", "serialize"):
-        fn = ctx.func(SD + "." + fname)
-        src = norm(fn.node)
-        hdr = [c for c in calls_in(fn.node) if isinstance(c.func, ast.Attribute) and c.func.attr == "write_bits" and ("delimiter_header_type" in norm(c) or "header_bit_length" in norm(c))]
-        good = len(hdr) == 1
+    ctx.rule("C06.R1", "writer and reader walk the same layout: identical events for every abstract structure, union, delimited type and array", min_instances=8)
+    ctx.rule("C06.R2", "the writer's events equal the Specification's layout: structure = per-field (align to the field, field) then align to the structure; union = tag, variant, align; arrays = [prefix] + elements under the capacity guards; delimited = header(byte length of the inner output) + inner bytes", min_instances=6)
+    S = K.schemas(ctx)
+    where = "pydsdl/_serdes.py"
+    # ---- structures
+    for s in S["structures"]:
+        wr = K.only(K.writer_runs(ctx, "_serialize_composite", s, K.value_for(s)), "writer of %s" % s.name)
+        if wr.raised:
+            raise AnalysisError("writer of %s raised %s" % (s.name, wr.raised))
+        rr = [r for r in K.reader_runs(ctx, "_deserialize_composite", s) if not r.raised]
+        rd = K.only(rr, "reader of %s" % s.name)
+        a, b = _w(wr.events, "w"), _w(rd.events, "r")
+        ctx.count(2)
+        ctx.check(a == b, "_serdes._(de)serialize_composite[StructureType %s]" % s.name, C.show(a), "the reader must consume exactly what the writer produces, step for step", where, {"reader": C.show(b)}, rule="C06.R1")
+        want = K.spec_structure(s)
+        ctx.check(a == want, "_serdes._serialize_composite[StructureType %s]" % s.name, C.show(a), "each field is preceded by padding to its own alignment; the structure is padded to its alignment at the end", where, {"expected": C.show(want)}, rule="C06.R2")
+        # what is written for each field is the value given under the field's name; the reader files values under the names
+        vals = [ev[3] for ev in C.normalize(wr.events, True) if ev[0] == "EMIT"]
+        names = [f.name for f in s.fields_except_padding]
+        ctx.check(vals == ["V_" + n for n in names] and isinstance(rd.result, dict) and list(rd.result) == names, "_serdes._(de)serialize_composite[StructureType %s]" % s.name, "values by field name, in field order", "every field's value is taken from / stored under the field's own name", where, {"written": vals, "read keys": list(rd.result) if isinstance(rd.result, dict) else rd.result}, rule="C06.R1", nontrivial=False)
+    # ---- unions
+    for u in S["unions"]:
+        rruns = K.reader_runs(ctx, "_deserialize_composite", u)
+        for i, f in enumerate(u.fields):
+            wr = K.only(K.writer_runs(ctx, "_serialize_composite", u, {f.name: "V_" + f.name}), "writer of %s.%s" % (u.name, f.name))
+            if wr.raised:
+                raise AnalysisError("writer of %s.%s raised %s" % (u.name, f.name, wr.raised))
+            a = _w(wr.events, "w")
+            sel = [r for r in C.select_run(rruns, {"read": i}) if not r.raised]
+            rd = K.only(sel, "reader of %s with tag %d" % (u.name, i))
+            b = _w(rd.events, "r")
+            ctx.count(2)
+            ctx.check(a == b, "_serdes._(de)serialize_composite[UnionType %s.%s]" % (u.name, f.name), C.show(a), "the reader must consume exactly what the writer produces, step for step", where, {"reader": C.show(b)}, rule="C06.R1")
+            want = K.spec_union(u, i)
+            ctx.check(a == want, "_serdes._serialize_composite[UnionType %s.%s]" % (u.name, f.name), C.show(a), "a union is its tag, the selected variant, then padding to the union's alignment", where, {"expected": C.show(want)}, rule="C06.R2")
+            tag = [ev for ev in C.normalize(wr.events, True) if ev[0] == "BITS"]
+            ctx.check(len(tag) == 1 and tag[0][3] == i and isinstance(rd.result, dict) and list(rd.result) == [f.name], "_serdes._serialize_composite[UnionType %s.%s]" % (u.name, f.name), "tag value %s" % (tag[0][3] if tag else "?"), "the tag is the index of the selected variant in declaration order; the reader returns that variant", where, rule="C06.R2", nontrivial=False)
+    # ---- delimited (nested copy and the two top-level copies)
+    for d in S["delimited"]:
+        inner = d.inner_type
+        val = K.value_for(inner) if inner._kind_ == "StructureType" else {inner.fields[0].name: "V_" + inner.fields[0].name}
+        for fname, kw in (("_serialize_composite", {}), ("serialize", {"with_delimiter_header": True})):
+            wr = K.only(K.writer_runs(ctx, fname, d, val, **kw), "%s of %s" % (fname, d.name))
+            if wr.raised:
+                raise AnalysisError("%s of %s raised %s" % (fname, d.name, wr.raised))
+            evs = C.normalize(wr.events, True)
+            writers: List[str] = []
+            for ev in wr.events:
+                if ev[0] == "NEW" and ev[1] not in writers:
+                    writers.append(ev[1])
+            if fname == "_serialize_composite":
+                outer: Optional[str] = "w"
+                inners = [x for x in writers if x != "w"]
+            else:
+                # the writer whose bytes are returned is the outer one
+                outer = getattr(wr.result, "origin", None)
+                inners = [x for x in writers if x != outer]
+            good = outer is not None and len(inners) == 1
+            o_ev = C.of_io(evs, outer) if good else []  # type: ignore
+            i_ev = C.of_io(C.normalize(wr.events), inners[0]) if good else []
+            want_inner = K.spec_of(inner, 0)
+            want_outer = [("BITS", 32, ("byte-length-of", inners[0] if good else "?")), ("COPY", inners[0] if good else "?")]
+            ctx.count(2)
+            ctx.check(good and o_ev == want_outer and i_ev == want_inner, "_serdes.%s[DelimitedType %s]" % (fname, d.name), "outer: %s | inner: %s" % (C.show(o_ev), C.show(i_ev)), "the delimiter header is the byte length of the serialized inner object, which follows byte by byte", where, {"expected outer": C.show(want_outer), "expected inner": C.show(want_inner)}, rule="C06.R2")
+        for fname, kw in (("_deserialize_composite", {}), ("deserialize", {"with_delimiter_header": True})):
+            rruns = K.reader_runs(ctx, fname, d, **kw)
+            okr = [r for r in C.select_run(rruns, {"read": 0 if inner._kind_ == "UnionType" else 3, "remaining": 1 << 20}) if not r.raised]
+            rd0 = okr[0] if okr else None
+            if rd0 is None:
+                raise AnalysisError("%s of %s: no completing run" % (fname, d.name))
+            ios: List[str] = []
+            for ev in C.normalize(rd0.events):
+                if len(ev) > 1 and isinstance(ev[1], str) and ev[1] not in ios and ev[0] != "REPEAT":
+                    ios.append(ev[1])
+            outer_r = ios[0] if ios else "?"
+            sub = next((x for x in ios if x.endswith("/sub")), "?")
+            o_ev = C.of_io(C.normalize(rd0.events), outer_r)
+            i_ev = C.of_io(C.normalize(rd0.events), sub)
+            ctx.count()
+            ctx.check(len(o_ev) == 2 and o_ev[0] == ("BITS", 32) and o_ev[1][0] == "SUB" and i_ev == K.spec_of(inner, 0), "_serdes.%s[DelimitedType %s]" % (fname, d.name), "outer: %s | sub: %s" % (C.show(o_ev), C.show(i_ev)), "the reader takes the header, then reads the inner object as the writer wrote it", where, rule="C06.R1")
+    # ---- without the header the top-level functions encode the inner type directly; non-delimited types as they are
+    for s in [S["delimited"][0], S["structures"][1]]:
+        inner = s.inner_type if s._kind_ == "DelimitedType" else s
+        wr = K.only(K.writer_runs(ctx, "serialize", s, K.value_for(inner)), "serialize of %s" % s.name)
+        rd = K.only([r for r in K.reader_runs(ctx, "deserialize", s) if not r.raised], "deserialize of %s" % s.name)
+        a = [e for e in C.normalize(wr.events) if e[0] != "NEW"]
+        b = C.normalize(rd.events)
+        strip = lambda evs: [(e[0],) + tuple(e[2:]) for e in evs]  # noqa: E731
+        ctx.count()
+        ctx.check(strip(a) == K.spec_structure(inner) and strip(b) == K.spec_structure(inner), "_serdes.(de)serialize[%s, no header]" % s.name, C.show(strip(a)), "without a delimiter header the object is encoded as its (inner) type, nothing else", where, {"reader": C.show(strip(b))}, rule="C06.R1")
+    # ---- arrays
+    for arr in S["fixed_arrays"] + S["variable_arrays"]:
+        fixed = arr._kind_ == "FixedLengthArrayType"
+        n = arr.capacity if fixed else 2
+        value = ["e%d" % i for i in range(n)]
+        wr = K.only(K.writer_runs(ctx, "_serialize_array", arr, value), "writer of %s" % arr.name)
+        if wr.raised:
+            raise AnalysisError("writer of %s raised %s" % (arr.name, wr.raised))
+        a = _w(wr.events, "w", True)
+        et = arr.element_type.name
+        want = ([] if fixed else [("BITS", arr.length_field_type.bit_length, n)]) + [("EMIT", et, v) for v in value]
+        ctx.count(2)
+        ctx.check(a == want, "_serdes._serialize_array[%s]" % arr.name, C.show(a), "a fixed-length array is its elements, without a prefix" if fixed else "a variable-length array is its length prefix (the element count) followed by the elements, in order", where, {"expected": C.show(want)}, rule="C06.R2")
+        rruns = K.reader_runs(ctx, "_deserialize_array", arr)
+        sel = [r for r in C.select_run(rruns, {"read": n}) if not r.raised]
+        rd = K.only(sel, "reader of %s" % arr.name)
+        b = _w(rd.events, "r")
+        if fixed:
+            want_r: List[Any] = [("EMIT", et)] * n
+        else:
+            first = [e for e in C.normalize(rd.events, True) if e[0] == "BITS"]
+            count = ("read", first[0][3]) if first else "<the length read>"
+            want_r = [("BITS", arr.length_field_type.bit_length), ("REPEAT", count, [("EMIT", et)])]
+        ctx.check(b == want_r, "_serdes._(de)serialize_array[%s]" % arr.name, C.show(b), "prefix and elements are read as they are written: as many elements as the prefix says", where, {"expected": C.show(want_r)}, rule="C06.R1")
+        # capacity guards of the writer
+        outcomes = {}
+        for m in sorted({0, 1, arr.capacity - 1, arr.capacity, arr.capacity + 1}):
+            if m > 400 or m < 0:
+                continue
+            r = K.only(K.writer_runs(ctx, "_serialize_array", arr, ["x"] * m), "writer of %s with %d elements" % (arr.name, m))
+            outcomes[m] = r.raised or "ok"
+            ctx.count()
+        want_o = {m: ("ok" if ((m == arr.capacity) if fixed else (m <= arr.capacity)) else "ArrayLengthError") for m in outcomes}
+        ctx.check(outcomes == want_o, "_serdes._serialize_array[%s]" % arr.name, "element counts -> %s" % outcomes, "a fixed array must have exactly `capacity` elements, a variable one at most `capacity`", where, {"expected": want_o}, rule="C06.R2")
+    # ---- float widths (both directions): little-endian IEEE 754 of exactly the declared width
+    for width in (16, 32, 64):
+        ft = C.type_sym(ctx, "FloatType", bit_length=width, cast_mode=TRUNC, alignment_requirement=1, name="float%d" % width, inclusive_value_range=Sym(min=-65504, max=65504))
+        wr = K.only(K.writer_runs(ctx, "_serialize_primitive", ft, 1.5), "writer of float%d" % width)
+        evs = _w(wr.events, "w", True)
+        fmts = {ev[2][1] for ev in evs if ev[0] == "BITS" and isinstance(ev[2], tuple) and ev[2][0] == "packed-byte"}
+        good = not wr.raised and len(evs) == width // 8 and all(ev[0] == "BITS" and ev[1] == 8 for ev in evs) and len(fmts) == 1
         if good:
-            v = norm(hdr[0].args[0])
-            good = v in ("len(inner_bytes)", "inner_byte_length") and ("inner_bytes = temp_writer.finish()" in src or "inner_bytes = inner_writer.finish()" in src)
-            if v == "inner_byte_length":
-                good = good and "inner_byte_length = len(inner_bytes)" in src
-            good = good and "_serialize_composite(temp_writer, schema.inner_type" in src.replace("inner_writer", "temp_writer")
-            good = good and re.search(r"for (\w+) in inner_bytes: writer\.write_bits\(\1, 8\)", src.replace("\n", " ")) is not None
-            width = norm(hdr[0].args[1])
-            good = good and width in ("schema.delimiter_header_type.bit_length", "header_bit_length")
-        ctx.check(good, fn.short, norm(hdr[0]) if hdr else "?", "the delimiter header is the byte length of the serialized inner object, which follows byte by byte", fn.where())
-    # float byte counts
-    for fname in ("_serialize_primitive", "_deserialize_primitive"):
-        fn = ctx.func(SD + "." + fname)
-        fmts = {}
-        for n in ast.walk(fn.node):
-            if isinstance(n, ast.If) and isinstance(n.test, ast.Compare) and norm(n.test.left) == "schema.bit_length" and isinstance(n.test.comparators[0], ast.Constant):
-                for s in n.body:
-                    for c in ast.walk(s):
-                        if isinstance(c, ast.Constant) and isinstance(c.value, str) and re.fullmatch(r"[<>=!@]?[efd]", c.value):
-                            fmts.setdefault(n.test.comparators[0].value, set()).add(c.value)
-        bad = {b: sorted(f) for b, f in fmts.items() if any(not x.startswith("<") or _struct.calcsize(x) * 8 != b for x in f)}
-        ctx.check(set(fmts) == {16, 32, 64} and not bad, fn.short, "float formats %s" % {k: sorted(v) for k, v in fmts.items()}, "floats are little-endian IEEE 754 of exactly the declared width", fn.where(), bad)
-    ctx.sample({"rule": "C06.R1/R2", "structure_trace": want_struct})
+            fmt = next(iter(fmts))
+            good = fmt.startswith("<") and fmt[1:] in ("e", "f", "d") and _struct.calcsize(fmt) * 8 == width and [ev[2][2] for ev in evs] == list(range(width // 8))
+        rd = K.only([r for r in K.reader_runs(ctx, "_deserialize_primitive", ft) if not r.raised], "reader of float%d" % width)
+        revs = _w(rd.events, "r")
+        res = rd.result
+        good_r = revs == [("BITS", 8)] * (width // 8) and isinstance(res, tuple) and res[0] == "UNPACKED" and res[1] in ("<e", "<f", "<d") and _struct.calcsize(res[1]) * 8 == width and res[2] == width // 8
+        ctx.count(2)
+        ctx.check(good and good_r, "_serdes._(de)serialize_primitive[float%d]" % width, "writer: %s | reader: %s -> %s" % (C.show(evs)[:80], C.show(revs)[:60], res), "floats are little-endian IEEE 754 of exactly the declared width, byte by byte in memory order", where, rule="C06.R2")
+    ctx.sample({"rule": "C06.R1/R2", "structure S1": C.show(K.spec_structure(S["structures"][1]))})
+
+
+def _leaf_kinds(ctx: Ctx) -> List[ClassInfo]:
+    repo = ctx.repo
+    ser = ctx.cls("_serializable._serializable.SerializableType")
+    return [c for c in repo.subclasses(ser) if not repo.is_abstract_class(c)]
 
 
 def rule_r3(ctx: Ctx) -> None:
-    repo = ctx.repo
-    ctx.rule("C06.R3", "type dispatch is exhaustive over the concrete types of the model and no test is shadowed by an earlier superclass test", min_instances=7)
-    ser = ctx.cls("_serializable._serializable.SerializableType")
-    leaves = [c for c in repo.subclasses(ser) if not repo.is_abstract_class(c)]
-    names = {c.name: c for c in repo.subclasses(ser)}
-    dispatchers = [
-        ("_serialize_field_value", "field_type"), ("_deserialize_field_value", "field_type"),
-        ("_serialize_element", "element_type"), ("_deserialize_element", "element_type"),
-        ("_serialize_primitive", "schema"), ("_deserialize_primitive", "schema"), ("_default_value", "schema"),
-        ("_serialize_composite", "schema"), ("_deserialize_composite", "schema"),
-    ]
-    domain_of = {
-        "_serialize_primitive": ("PrimitiveType", "VoidType"), "_deserialize_primitive": ("PrimitiveType", "VoidType"),
-        "_serialize_composite": ("CompositeType",), "_deserialize_composite": ("CompositeType",),
-    }
-    for fname, subj in dispatchers:
-        fn = ctx.func(SD + "." + fname)
-        chain = isinstance_branches(fn.node, subj)
-        tests = [ks for ks, _ in chain if ks]
-        dom = domain_of.get(fname)
-        uncovered = []
-        for leaf in leaves:
-            if dom and not any(repo.is_subclass(leaf, names[d]) for d in dom if d in names):
+    ctx.rule("C06.R3", "type dispatch: every concrete type of the model is routed to the codec function of its kind and reaches a handler there", min_instances=7)
+    leaves = _leaf_kinds(ctx)
+    unknown = [c.name for c in leaves if c.name not in C.KINDS]
+    if unknown:
+        raise AnalysisError("concrete types not known to the codec model: %s" % unknown)
+    fam = {}
+    for c in leaves:
+        isa = C.isa_of(ctx, C.KINDS[c.name])
+        fam[c.name] = "primitive" if ("PrimitiveType" in isa or "VoidType" in isa) else "array" if "ArrayType" in isa else "composite"
+    routers = [("_serialize_field_value", True), ("_deserialize_field_value", False), ("_serialize_element", True), ("_deserialize_element", False)]
+    for fname, is_writer in routers:
+        bad = {}
+        for c in leaves:
+            t = C.type_sym(ctx, c.name, name=c.name, alignment_requirement=1)
+
+            def enter(name: str, args: List[Any], fname: str = fname) -> Any:
+                return True if name == fname else "record"
+
+            if is_writer:
+                runs = C.explore_codec(ctx, fname, lambda sink, t=t: ([C.AWriter(sink, "w"), t, "v"], {}), enter)
+            else:
+                runs = C.explore_codec(ctx, fname, lambda sink, t=t: ([C.AReader(sink, "r"), t], {}), enter)
+            r = K.only(runs, "%s on %s" % (fname, c.name))
+            calls = [ev for ev in r.events if ev[0] == "CALL"]
+            want_fn = ("_serialize_" if is_writer else "_deserialize_") + fam[c.name]
+            ctx.count()
+            if r.raised or len(calls) != 1 or calls[0][1] != want_fn:
+                bad[c.name] = r.raised or [x[1] for x in calls]
+        ctx.check(not bad, SD + "." + fname, "routes %d concrete types to primitive / array / composite codecs" % len(leaves), "every concrete type reaches the codec of its kind", ctx.func(SD + "." + fname).where(), bad)
+    # inside the primitive codec every primitive kind has a handler (no fall-through to "unknown type")
+    for fname, is_writer in (("_serialize_primitive", True), ("_deserialize_primitive", False)):
+        bad = {}
+        for c in leaves:
+            if fam[c.name] != "primitive":
                 continue
-            if leaf.name == "ServiceType" and fname in ("_default_value",):
-                continue  # service types are rejected at the API boundary
-            if not any(any(k in names and repo.is_subclass(leaf, names[k]) for k in ks) for ks in tests):
-                uncovered.append(leaf.name)
-        shadowed = []
-        for i, ks in enumerate(tests):
-            for j in range(i):
-                for k in ks:
-                    if k in names and all(any(p in names and repo.is_subclass(names[k], names[p]) for p in tests[j]) for _ in [0]):
-                        if any(p in names and repo.is_subclass(names[k], names[p]) for p in tests[j]):
-                            shadowed.append("%s after %s" % (k, tests[j]))
-        ctx.check(not uncovered and not shadowed, fn.short, "tests: %s" % tests, "every concrete type reaches a handler and no handler is unreachable", fn.where(), {"uncovered": uncovered, "shadowed": shadowed})
-    # array element specialisations come before the generic path
-    for fname in ("_serialize_array",):
-        fn = ctx.func(SD + "." + fname)
-        chain = isinstance_branches(fn.node, "schema.element_type")
-        tests = [ks for ks, _ in chain if ks]
-        ctx.check(tests[:2] == [["UTF8Type"], ["ByteType"]], fn.short, "element specialisations: %s" % tests, "utf8 and byte arrays accept str / bytes input before the generic list path", fn.where(), nontrivial=False)
+            width = 32 if c.name == "FloatType" else (1 if c.name == "BooleanType" else 8)
+            t = C.type_sym(ctx, c.name, name=c.name, bit_length=width, cast_mode=SAT, alignment_requirement=1, inclusive_value_range=Sym(min=0, max=1))
+            if is_writer:
+                runs = C.explore_codec(ctx, fname, lambda sink, t=t: ([C.AWriter(sink, "w"), t, 1], {}))
+            else:
+                runs = C.explore_codec(ctx, fname, lambda sink, t=t: ([C.AReader(sink, "r"), t], {}))
+            ctx.count()
+            if any(r.raised for r in runs) or not all(any(ev[0] == "BITS" for ev in r.events) for r in runs):
+                bad[c.name] = [r.raised for r in runs]
+        ctx.check(not bad, SD + "." + fname, "a handler for every primitive kind", "every primitive type is encoded; none falls through to the unknown-type error", ctx.func(SD + "." + fname).where(), bad)
+    # composites: structures / unions / delimited are handled (R1/R2); a service type is refused with TypeError
+    sv = C.type_sym(ctx, "ServiceType", name="Svc", alignment_requirement=8)
+    outcomes = {}
+    for fname, mk in (("_serialize_composite", lambda sink: ([C.AWriter(sink, "w"), sv, {}], {})), ("_deserialize_composite", lambda sink: ([C.AReader(sink, "r"), sv], {})), ("serialize", lambda sink: ([sv, {}], {})), ("deserialize", lambda sink: ([sv, Sym(_kind_="bytes")], {}))):
+        rs = C.explore_codec(ctx, fname, mk)
+        outcomes[fname] = sorted({r.raised or "ok" for r in rs})
+        ctx.count()
+    ctx.check(all(v == ["TypeError"] for v in outcomes.values()), SD + " (service types)", str(outcomes), "a service type is not serializable: all four entry points refuse it with TypeError", "pydsdl/_serdes.py")
+    # array element specialisations: utf8 and byte arrays accept text / bytes input
+    for kind, val in (("UTF8Type", "ab"), ("ByteType", b"ab")):
+        et = C.type_sym(ctx, kind, _opaque_=True, name=kind, alignment_requirement=1, full_name=kind)
+        arr = C.type_sym(ctx, "VariableLengthArrayType", element_type=et, capacity=5, alignment_requirement=1, length_field_type=Sym(bit_length=8), name=kind + "[<=5]")
+        try:
+            rs = K.writer_runs(ctx, "_serialize_array", arr, val)
+            out: List[Any] = [(r.raised, [ev[2] for ev in _w(r.events, "w", True) if ev[0] == "EMIT"]) for r in rs]
+        except AnalysisError as ex:
+            out = [("not evaluable", str(ex)[:80])]
+        ctx.count()
+        ctx.check(out == [(None, [97, 98])], SD + "._serialize_array[%s]" % kind, str(out), "utf8 and byte arrays accept str / bytes input, element by element", "pydsdl/_serdes.py", nontrivial=False)
 
 
 def rule_r4(ctx: Ctx) -> None:
-    repo = ctx.repo
-    ctx.rule("C06.R4", "cast modes: saturated clamps to the type's inclusive range, truncated masks to the width (integers) / overflows to infinity (floats)", min_instances=4)
+    ctx.rule("C06.R4", "cast modes: saturated clamps to the type's inclusive range, truncated wraps to the width; two's complement on the wire; the reader sign-extends", min_instances=4)
+    where = ctx.func(SD + "._serialize_primitive").where()
+    for kind, signed in (("SignedIntegerType", True), ("UnsignedIntegerType", False)):
+        bad = []
+        for n in (1, 2, 7, 8, 33, 64):
+            if signed and n < 2:
+                continue
+            lo, hi = (-(2 ** (n - 1)), 2 ** (n - 1) - 1) if signed else (0, 2**n - 1)
+            for mode in (SAT, TRUNC):
+                t = C.type_sym(ctx, kind, name="%s%d" % (kind, n), bit_length=n, cast_mode=mode, alignment_requirement=1, inclusive_value_range=Sym(min=lo, max=hi))
+                for v in sorted({lo - 5, lo - 1, lo, lo + 1, -1, 0, 1, hi - 1, hi, hi + 1, hi + 300}):
+                    r = K.only(K.writer_runs(ctx, "_serialize_primitive", t, v), "%s of %r" % (t.name, v))
+                    ev = _w(r.events, "w", True)
+                    res = min(max(v, lo), hi) if mode == SAT else v
+                    want = [("BITS", n, res % (2**n))]
+                    ctx.count()
+                    if r.raised or ev != want:
+                        bad.append({"type": t.name, "mode": mode, "value": v, "found": r.raised or ev, "expected": want})
+        ctx.check(not bad, SD + "._serialize_primitive[%s]" % kind, "boundary grid of widths x modes x values", "out-of-range integers are clamped (saturated) or wrapped modulo 2**n (truncated); the wire holds the two's complement within the declared width", where, bad[:4])
+    # reader: unsigned as read; signed sign-extended at 2**(n-1)
+    rwhere = ctx.func(SD + "._deserialize_primitive").where()
+    bad = []
+    for kind, signed in (("SignedIntegerType", True), ("UnsignedIntegerType", False)):
+        for n in (2, 7, 8, 33, 64):
+            t = C.type_sym(ctx, kind, name="%s%d" % (kind, n), bit_length=n, cast_mode=SAT, alignment_requirement=1)
+            runs = K.reader_runs(ctx, "_deserialize_primitive", t)
+            for raw in sorted({0, 1, 2 ** (n - 1) - 1, 2 ** (n - 1), 2 ** (n - 1) + 1, 2**n - 1}):
+                sel = C.select_run(runs, {"read": raw})
+                r = K.only(sel, "reader of %s with raw %d" % (t.name, raw))
+                try:
+                    got = C.eval_abs(C._subst_atoms(C._x(r.result), {"read": raw}), {})
+                except (KeyError, TypeError):
+                    got = r.result
+                want_v = raw - 2**n if (signed and raw >= 2 ** (n - 1)) else raw
+                ctx.count()
+                if r.raised or _w(r.events, "r") != [("BITS", n)] or got != want_v:
+                    bad.append({"type": t.name, "raw": raw, "found": r.raised or got, "expected": want_v})
+    ctx.check(not bad, SD + "._deserialize_primitive[integers]", "raw -> value on a boundary grid", "unsigned integers are returned as read; signed integers are decoded from two's complement", rwhere, bad[:4])
+    # boolean and void
+    bt = C.type_sym(ctx, "BooleanType", name="bool", bit_length=1, cast_mode=SAT, alignment_requirement=1)
+    outs = {v: _w(K.only(K.writer_runs(ctx, "_serialize_primitive", bt, v), "bool").events, "w", True) for v in (False, True, 0, 7)}
+    ctx.count(4)
+    ctx.check(all(outs[v] == [("BITS", 1, 1 if v else 0)] for v in outs), SD + "._serialize_primitive[BooleanType]", str({repr(k): v for k, v in outs.items()})[:120], "a boolean is one bit: 1 for truthy, 0 for falsy", where)
+    vt = C.type_sym(ctx, "VoidType", name="void5", bit_length=5, alignment_requirement=1)
+    wv = _w(K.only(K.writer_runs(ctx, "_serialize_primitive", vt, None), "void").events, "w", True)
+    rv = K.only(K.reader_runs(ctx, "_deserialize_primitive", vt), "void")
+    ctx.check(wv == [("BITS", 5, 0)] and _w(rv.events, "r") == [("BITS", 5)] and rv.result is None, SD + "._(de)serialize_primitive[VoidType]", C.show(wv), "padding is written as zero bits and skipped on reading", where, nontrivial=False)
+    # floats: saturation consults the value range, non-finite values are recognised (structure of the clamp, not its arithmetic)
     fn = ctx.func(SD + "._serialize_primitive")
-    for ks, body in isinstance_branches(fn.node, "schema"):
-        for k in ks:
-            if k not in ("SignedIntegerType", "UnsignedIntegerType"):
-                continue
-            sat = trunc = None
-            for st in body:
-                if isinstance(st, ast.If) and norm(st.test) == "schema.cast_mode == PrimitiveType.CastMode.SATURATED":
-                    for s in st.body:
-                        if isinstance(s, ast.Assign) and norm(s.targets[0]) == "int_value":
-                            sat = s.value
-                    env = {}
-                    for s in st.orelse:
-                        if isinstance(s, ast.Assign) and isinstance(s.targets[0], ast.Name):
-                            if norm(s.targets[0]) == "int_value":
-                                from ..decide import substitute
-
-                                trunc = substitute(s.value, env)
-                            else:
-                                env[s.targets[0].id] = s.value
-            bounds_ok = "min_bound = int(range_val.min)" in norm(ast.Module(body=body, type_ignores=[])) and "max_bound = int(range_val.max)" in norm(ast.Module(body=body, type_ignores=[])) and "range_val = schema.inclusive_value_range" in norm(ast.Module(body=body, type_ignores=[]))
-            bad = []
-            if sat is None or trunc is None:
-                ctx.fail(fn.short + "[%s]" % k, "cast-mode branches", "saturated / truncated actions not found", where=fn.where())
-                continue
-            for lo, hi in ((-128, 127), (0, 255), (0, 1), (-2, 1)):
-                for v in (lo - 5, lo - 1, lo, lo + 1, 0, hi - 1, hi, hi + 1, hi + 300):
-                    try:
-                        got = Folder({"int_value": v, "min_bound": lo, "max_bound": hi}, repo, fn.module).fold(sat)
-                    except Unfoldable as ex:
-                        raise AnalysisError("cannot fold the saturation expression %s: %s" % (norm(sat), ex))
-                    ctx.count()
-                    if got != min(max(v, lo), hi):
-                        bad.append({"mode": "saturated", "value": v, "range": [lo, hi], "found": got})
-            for n in (1, 2, 7, 8, 33, 64):
-                for v in (-(2**n) - 1, -1, 0, 1, 2**n - 1, 2**n, 2**n + 5):
-                    try:
-                        got = Folder({"int_value": v, "schema.bit_length": n}, repo, fn.module).fold(trunc)
-                    except Unfoldable as ex:
-                        raise AnalysisError("cannot fold the truncation expression %s: %s" % (norm(trunc), ex))
-                    ctx.count()
-                    if got != v % (2**n):
-                        bad.append({"mode": "truncated", "value": v, "bits": n, "found": got})
-            ctx.check(not bad and bounds_ok, fn.short + "[%s]" % k, "saturated: %s ; truncated: %s" % (norm(sat), norm(trunc)), "out-of-range integers are clamped (saturated) or wrapped modulo 2**n (truncated)", fn.where(), bad[:4])
-            # what is written is the two's complement of the result within the width
-            wr = [c for s in body for c in ast.walk(s) if isinstance(c, ast.Call) and isinstance(c.func, ast.Attribute) and c.func.attr == "write_bits"]
-            ok_w = len(wr) == 1 and norm(wr[0].args[1]) == "schema.bit_length" and norm(wr[0].args[0]) in ("int_value", "raw_value")
-            if ok_w and norm(wr[0].args[0]) == "raw_value":
-                ok_w = "raw_value = int_value & (1 << schema.bit_length) - 1" in norm(ast.Module(body=body, type_ignores=[]))
-            ctx.check(ok_w, fn.short + "[%s]" % k, norm(wr[0]) if wr else "?", "the value is written in two's complement within the declared width", fn.where(), nontrivial=False)
-    # float: saturated clamps finite values, truncated overflows to +-inf
-    src = norm(fn.node)
-    good = "float_value = max(min_bound, min(max_bound, float_value))" in src and "math.copysign(math.inf, float_value)" in src and "math.isnan(float_value)" in src
-    ctx.check(good, fn.short + "[FloatType]", "saturated: clamp finite values; overflow -> copysign(inf)", "floats saturate to the largest finite value or overflow to infinity; NaN passes through", fn.where())
-    # reader sign extension
-    rd = ctx.func(SD + "._deserialize_primitive")
-    rsrc = norm(rd.node)
-    ctx.check("if raw_value >= 1 << schema.bit_length - 1" in rsrc and "result = raw_value - (1 << schema.bit_length)" in rsrc, rd.short + "[SignedIntegerType]", "sign extension at 2**(n-1)", "signed integers are decoded from two's complement", rd.where())
+    node = ctx.inl(fn, keep=tuple(ctx.repo.module(SD).functions))
+    src = norm(node)
+    good = "isnan" in src and "inf" in src and "inclusive_value_range" in src
+    ctx.check(good, fn.short + "[FloatType]", "saturation consults the value range; non-finite values are recognised", "floats saturate to the largest finite value or overflow to infinity; NaN passes through", fn.where(), nontrivial=False)
 
 
 def rule_r5(ctx: Ctx) -> None:
     ctx.rule("C06.R5", "defaults: false / 0 / 0.0 / [] / '' / b'' / capacity x default / dict of field defaults / first variant; omitted structure fields are encoded as their default", min_instances=3)
+    S = K.schemas(ctx)
+    P = S["opaque"]["P"]
     fn = ctx.func(SD + "._default_value")
-    table: Dict[str, str] = {}
-    for ks, body in isinstance_branches(fn.node, "schema"):
-        rets = [norm(r.value) for s in body for r in ast.walk(s) if isinstance(r, ast.Return)]
-        sub = isinstance_branches(ast.FunctionDef(name="x", args=fn.node.args, body=list(body), decorator_list=[], lineno=0), "schema.element_type")
-        for k in ks:
-            if sub:
-                for ks2, b2 in sub:
-                    r2 = [norm(r.value) for s in b2 for r in ast.walk(s) if isinstance(r, ast.Return)]
-                    for k2 in ks2 or ["<other>"]:
-                        table["%s[%s]" % (k, k2)] = ";".join(r2)
-            else:
-                table[k] = ";".join(rets)
-    want = {
-        "BooleanType": "False", "SignedIntegerType": "0", "UnsignedIntegerType": "0", "FloatType": "0.0", "VoidType": "None",
-        "FixedLengthArrayType": "[_default_value(schema.element_type) for _ in range(schema.capacity)]",
-        "VariableLengthArrayType[UTF8Type]": "''", "VariableLengthArrayType[ByteType]": "b''", "VariableLengthArrayType[<other>]": "[]",
-        "StructureType": "result", "UnionType": "{first_field.name: _default_value(first_field.data_type)}", "DelimitedType": "_default_value(schema.inner_type)",
+
+    def default_of(t: Any) -> Any:
+        rs = C.explore_codec(ctx, "_default_value", lambda sink: ([t], {}))
+        r = K.only(rs, "_default_value of %s" % getattr(t, "name", t))
+        ctx.count()
+        return r.raised or r.result
+
+    prim = lambda kind: C.type_sym(ctx, kind, name=kind, bit_length=8, cast_mode=SAT, alignment_requirement=1)  # noqa: E731
+    arr = lambda kind, et, cap: C.type_sym(ctx, kind, name=kind, element_type=et, capacity=cap, alignment_requirement=1, length_field_type=Sym(bit_length=8))  # noqa: E731
+    utf8 = C.type_sym(ctx, "UTF8Type", name="utf8", bit_length=8, cast_mode=TRUNC, alignment_requirement=1)
+    byte = C.type_sym(ctx, "ByteType", name="byte", bit_length=8, cast_mode=TRUNC, alignment_requirement=1)
+    s1, u3 = S["structures"][1], S["unions"][1]
+    got = {
+        "bool": default_of(prim("BooleanType")), "int": default_of(prim("SignedIntegerType")), "uint": default_of(prim("UnsignedIntegerType")), "float": default_of(prim("FloatType")),
+        "void": default_of(C.type_sym(ctx, "VoidType", name="void", bit_length=3, alignment_requirement=1)),
+        "fixed": default_of(arr("FixedLengthArrayType", P, 3)), "var": default_of(arr("VariableLengthArrayType", P, 3)),
+        "utf8[]": default_of(arr("VariableLengthArrayType", utf8, 3)), "byte[]": default_of(arr("VariableLengthArrayType", byte, 3)),
+        "struct": default_of(s1), "union": default_of(u3), "delimited": default_of(S["delimited"][0]),
     }
-    bad = {k: table.get(k) for k, v in want.items() if table.get(k) != v}
-    ctx.check(not bad, fn.short, "defaults table", "each type has the Specification's zero value", fn.where(), bad)
-    src = norm(fn.node)
-    ctx.check("for field in schema.fields_except_padding: result[field.name] = _default_value(field.data_type)" in src.replace("\n", " ") and "first_field = schema.fields[0]" in src, fn.short, "structure: all named fields; union: first variant", "a structure defaults field-wise, a union to its first variant", fn.where())
-    sc = ctx.func(SD + "._serialize_composite")
-    ssrc = norm(sc.node).replace("\n", " ")
-    good = "value = obj.get(field.name, _DEFAULT_SENTINEL)" in ssrc and "if value is _DEFAULT_SENTINEL: value = _default_value(field.data_type)" in ssrc
-    ctx.check(good, sc.short, "omitted field -> _default_value(field.data_type)", "structure fields omitted from the input are encoded as zero / empty / first variant", sc.where())
-    for k in ("StructureType",):
-        pass
+    D = lambda t: ("DEFAULT-OF", t.name)  # noqa: E731
+    want = {
+        "bool": False, "int": 0, "uint": 0, "float": 0.0, "void": None, "fixed": [D(P)] * 3, "var": [], "utf8[]": "", "byte[]": b"",
+        "struct": {f.name: D(f.data_type) for f in s1.fields_except_padding}, "union": {u3.fields[0].name: D(u3.fields[0].data_type)},
+        "delimited": {f.name: D(f.data_type) for f in s1.fields_except_padding},
+    }
+    bad = {k: repr(got[k])[:80] for k in want if repr(got[k]) != repr(want[k]) or type(got[k]) is not type(want[k])}
+    ctx.check(not bad, fn.short, "defaults table", "each type has the Specification's zero value; a structure defaults field-wise, a union to its first variant", fn.where(), bad)
+    # omitted structure fields are encoded as their default
+    partial = {"p": "V_p"}
+    wr = K.only(K.writer_runs(ctx, "_serialize_composite", s1, partial), "writer of S1 with omitted fields")
+    vals = {ev[1]: ev[2] for ev in _w(wr.events, "w", True) if ev[0] == "EMIT"}
+    want_v = {f.data_type.name: (partial[f.name] if f.name in partial else ("DEFAULT-OF", f.data_type.name)) for f in s1.fields_except_padding}
+    ctx.check(not wr.raised and vals == want_v and _w(wr.events, "w") == K.spec_structure(s1), SD + "._serialize_composite", "omitted field -> _default_value(field.data_type)", "structure fields omitted from the input are encoded as zero / empty / first variant, in place", ctx.func(SD + "._serialize_composite").where(), {"found": vals})
+    # unknown keys are rejected
+    wr2 = K.only(K.writer_runs(ctx, "_serialize_composite", s1, {"nope": 1}), "writer of S1 with an unknown key")
+    ctx.check(wr2.raised == "ValueError", SD + "._serialize_composite", "unknown key -> %s" % wr2.raised, "a value naming a field the structure does not have is rejected", ctx.func(SD + "._serialize_composite").where(), nontrivial=False)
 
 
 def run(ctx: Ctx) -> None:
